@@ -26,7 +26,7 @@ import dns.wire
 import dns.zone
 import dns.zonefile
 
-from harness.core import VERIF, Ctx, enc_labels, hx
+from harness.core import VERIF, Ctx, Stalled, enc_labels, hx
 
 RULE = (
     "streams from one SplitMix64 state: (wire) valid messages built from 178 sample records of 63 types then mutated "
@@ -94,7 +94,7 @@ def guarded(fn, zone_level=False):
         v = fn()
         return "ok", v, None
     except BaseException as e:  # noqa
-        if isinstance(e, (KeyboardInterrupt, SystemExit)):
+        if isinstance(e, (KeyboardInterrupt, SystemExit, Stalled)):
             raise
         return classify(e, zone_level), None, e
     finally:
@@ -955,6 +955,60 @@ def generate(ctx: Ctx, scale: int, rng):
         c = {"kind": "zone.text", "text": t, "origin": 1, "relativize": rng.below(2), "check_origin": rng.below(2),
              "badline": len(blank) + len(head) + bad + 1, "filename": rng.choice([None, None, "db.example", "dir/zone file.txt"])}
         ctx.case(("zl", t, c["relativize"], c["check_origin"], c["filename"]), sample=c if len(t) < 200 else None)
+        eval_case(ctx, c)
+    # structured directives: every field of every directive drawn from legal, boundary, misspelt and missing values
+    # (the $GENERATE modifier grammar ${offset,width,base} field by field) — each error branch of the directive
+    # parsers is its own raise site and must raise the library's own SyntaxError with the file:line prefix
+    TTLS_Z = ["0", "300", "4294967295", "4294967296", "-1", "1h", "7102w", "99999999999", "0x10"]
+    G_RANGE = ["1-3", "0-0", "1-3/2", "2-8/3", "3-1", "1-", "-3", "a-b", "1-3/0", "1-3/x", "1", "1-3/", "", "1-3/-1", "1--3", "0x1-3", "1-3-5", "٣-٤"]
+    G_OFF = ["0", "-1", "+2", "5", "x", "", "--1", "1.5", "99999999999", "-0", "+", "-"]
+    G_WIDTH = ["0", "2", "x", "", "-1", "300", "2.0", "+2"]
+    G_BASE = ["d", "o", "x", "X", "n", "N", "z", "D", "", "dd", "1", "\u00e9", "b", "O"]
+
+    def g_mod():
+        r = rng.below(12)
+        if r == 0:
+            return "$"
+        if r == 1:
+            return rng.choice(["$$", "\\$", "${}", "${", "${0,2,d", "$}", "${,,}", "${0,2,d,}", "${0,2,d,9}", "${ 0,2,d}", "$ {0,2,d}"])
+        fields = [rng.choice(G_OFF), rng.choice(G_WIDTH), rng.choice(G_BASE)][: rng.choice([1, 2, 3, 3, 3])]
+        return "${" + ",".join(fields) + "}"
+
+    def g_side(kind):
+        if kind == "name":
+            return rng.choice(["h", "", "h-", "x.y"]) + g_mod() + rng.choice(["", "", ".sub", g_mod()])
+        return kind.replace("$", g_mod()) if "$" in kind else kind
+
+    G_RHS = {"A": ["10.0.0.$", "10.0.$.1", "$.0.0.1", "10.0.0.1"], "PTR": ["host$.example.", "$"], "CNAME": ["h$", "$.example."],
+             "TXT": ['"t$"', "$"], "AAAA": ["2001:db8::$", "::$"], "MX": ["$ mail$.", "10 $"], "NS": ["ns$."], "DNAME": ["d$."],
+             "SOA": ["ns. a. $ 2 3 4 5"], "NOSUCH": ["$"], "TYPE1": ["\\# 4 0a0000$"], "": [""]}
+    for _ in range(n(900)):
+        k = rng.below(4)
+        if k == 0:
+            ty = rng.choice(list(G_RHS))
+            toks = ["$GENERATE", rng.choice(G_RANGE), g_side("name")]
+            if rng.chance(1, 3):
+                toks.append(rng.choice(TTLS_Z))
+            if rng.chance(1, 3):
+                toks.append(rng.choice(["IN", "CH", "CLASS1", "ANY", "BOGUS", "in"]))
+            toks.append(ty)
+            toks.append(g_side(rng.choice(G_RHS[ty])))
+            line = " ".join(x for x in toks if x != "" or rng.chance(1, 2))
+        elif k == 1:
+            line = "$TTL " + rng.choice(TTLS_Z + ["1h30m", "1w2d", "h", "1hh", "1h1", "-1h", "1H", "abc", "", "300 extra", "300 ; c", "(300)"])
+        elif k == 2:
+            line = "$ORIGIN " + rng.choice(["sub", "sub.example.", ".", "@", "", "a..b", "\\300.", "x" * 64 + ".", "sub extra", "(sub)", '"sub."', "sub ; c"])
+        else:
+            line = rng.choice(["$INCLUDE", "$INCLUDE /nonexistent/verif-file", "$INCLUDE /nonexistent/verif-file sub.example.", "$INCLUDE \"\"", "$UNICODE", "$UNICODE x",
+                               "$generate 1-2 a$ A 10.0.0.$", "$Ttl 300", "$", "$$", "$GENERATE", "$GENERATE 1-2", "$GENERATE 1-2 a$", "$GENERATE 1-2 a$ A", "$NOSUCH 1"])
+        after = rng.choice([[], ["   IN TXT \"ownerless after directive\""], ["  300 IN A 10.9.9.9"], ["z IN A 10.1.1.1"]])
+        head = ["$TTL 300", "@ IN SOA ns. admin. 1 2 3 4 5", "ns IN A 10.0.0.53"] if rng.chance(2, 3) else ["@ 300 IN SOA ns. admin. 1 2 3 4 5"]
+        t = "\n".join(head + [line] + after) + "\n"
+        c = {"kind": "zone.text", "text": t, "origin": 1, "relativize": rng.below(2), "check_origin": rng.below(2),
+             "filename": rng.choice([None, None, "db.example"])}
+        if rng.chance(1, 4):
+            c["zopts"] = {"directives": rng.choice([True, ["$TTL", "$ORIGIN", "$GENERATE"], ["$GENERATE"]])}  # $INCLUDE stays disabled: opening a file is the environment, not the parser
+        ctx.case(("zd", t, c["relativize"], c["check_origin"], c["filename"], str(c.get("zopts"))), sample=c if rng.chance(1, 40) else None)
         eval_case(ctx, c)
     for _ in range(n(500)):
         base = build_message(rng)
